@@ -17,6 +17,11 @@ func main() {
 			"frames = notifications then answer, both diffed with the model (writer-object fact). The real client's reader is also run against a scripted peer (frames after the answer, foreign ids, " +
 			"undecodable frames). Handler registration HISTORIES on one client (register, re-register a registered method with another tagged handler instance, unregister, register again) " +
 			"interleaved with batches of calls: which instance received each notification vs last-registration-wins and vs the model's tableAfter. " +
+			"UNENCODABLE notifications (the sender must refuse them, nothing of them may reach the stream): SendProgress(NaN / +Inf / -Inf), SendCustomNotification and SendNotification(NewNotification) with a " +
+			"chan / func / NaN / +-Inf / map[bool] / failing MarshalJSON / cyclic map / complex / nested chan value or a chan in an object `_meta`, SendNotification with a hand-built notification (func in Meta, NaN field) " +
+			"(SendLogMessage takes strings only: no unencodable variant exists) - every (kind, cause) at every position (first / middle / last / three in a row / only) on every POST-SSE configuration with the real client and the raw peer, " +
+			"in JSON mode in the middle, plus one in five random bursts with a third of their notifications replaced; oracles: the sender returns ErrNotificationSerialization for exactly these, every encodable one is delivered once, in order, " +
+			"before the intact result; raw: every frame is one JSON text, frames = encodable notifications + answer, ids distinct; the model line marks them `unencodable` (Attempt.refused). " +
 			"SLOW HANDLERS: the handler really pauses (time.Sleep) 1 s / 3 s / 12 s in all (thorough also 35 s / 65 s) - between notifications, before the answer, before the first notification, or in two halves - " +
 			"on every server configuration, real client and raw peer, every case on its own server and session, all concurrently with the rest; same per-call oracle, same model lines (the model has no time: the pause is an ignored field). NotificationParams marshal/unmarshal/NewNotification vs the model on generated values. Non-trivial = at least one notification handled / on the stream.",
 		Run: run})
@@ -34,6 +39,9 @@ func run(c *hk.Ctx) {
 	}
 	runParams(c, nParams)
 	runScripts(c, nScript)
+	// unencodable notifications at every position, every sender kind and cause (always-run set; first, so that the witness
+	// kept per fingerprint is one of these small calls)
+	runUnenc(c, all)
 
 	nonce := 0
 	mkPlans := func(n int, maxBurst int) []*plan {
